@@ -210,7 +210,7 @@ def spkm_encrypt(ctx, P):
     for s in es:
         lp = s.loops[-1] if s.loops else None
         ok = lp is not None and lp.get("k") == "foreach" and match([".", ["this"], D + "m_map_keys"], lp.get("range")) and not has_break(lp.get("b")) and \
-            not [x for x in stmts(lp.get("b")) if x.get("k") == "continue"]
+            not [x for x in stmts(lp.get("b")) if x.get("k") == "continue" and (x.get("l") or 0) < s.line]
         inner = [g for g in s.guards if g.kind in ("if", "sc", "case") and lp is not None and g.line >= lp.get("l")]
         ctx.ob("SPKM::Encrypt/all-keys@L%s" % s.line, "LOOP", "EncryptSecret runs unconditionally for every element of m_map_keys (complete range-for, no break/continue)",
                bool(ok and not inner), s.where)
@@ -232,6 +232,13 @@ def spkm_encrypt(ctx, P):
         ok = "secret-encrypted" in state and len(a) == 3 and show(a[2]) in outs and match(batch, call_obj(e))
         ctx.ob("SPKM::Encrypt/writes-ciphertext@L%s" % st.get("l"), "PROVENANCE", "WriteCryptedDescriptorKey is called only after EncryptSecret succeeded and is given EncryptSecret's "
                "output buffer (never the plaintext secret)", ok, "%s:%s" % (f.file, st.get("l")), {"args": [show(x) for x in a]})
+    for ws_ in sites(f, is_w, P):
+        lp = ws_.loops[-1] if ws_.loops else None
+        ok = lp is not None and lp.get("k") == "foreach" and match([".", ["this"], D + "m_map_keys"], lp.get("range")) and \
+            not [g for g in ws_.guards if g.kind in ("if", "sc", "case") and g.line >= lp.get("l")] and \
+            not [x for x in stmts(lp.get("b")) if x.get("k") == "continue" and (x.get("l") or 0) < ws_.line]
+        ctx.ob("SPKM::Encrypt/every-key-written@L%s" % ws_.line, "LOOP", "inside the loop over m_map_keys the encrypted key is written for every element (no condition or `continue` "
+               "can skip the write once the secret was encrypted)", bool(ok), ws_.where)
     # only ciphertext writes on the batch
     others = sorted({x[1] for _, e in all_exprs(f.body) for x in subexprs(e) if x[0] in ("mcall", "vcall") and match(batch, x[2]) and x[1] != B + "WriteCryptedDescriptorKey"})
     ctx.ob("SPKM::Encrypt/only-crypted-writes", "WHO-MAY-CALL", "the only WalletBatch operation performed by DescriptorScriptPubKeyMan::Encrypt is WriteCryptedDescriptorKey", not others,
